@@ -14,7 +14,7 @@ MCFuncsB  == {"F1"}
 \* concretisation dimensions (no run-time meaning in the model; they are where the template's
 \* exported(name) field naming and same-typed parameters bite)
 NameSets == {"plain", "unnamed", "blank", "blankmix", "initialism", "casepair", "nonascii", "locals", "callinfo", "mock"}
-TypeSets == {"ints", "mixed", "rich"}
+TypeSets == TypeSetNames
 Applicable(ns, ts, s) ==
   /\ s.ar = 0 => ns = "plain" /\ ts = "ints"
   /\ ns = "casepair" => s.ar >= 2
@@ -27,7 +27,8 @@ Fragile == {"casepair", "callinfo", "mock"}
 \* generated IN-PACKAGE, unexported names, initialism-like unexported names, and a pair differing only in the case of
 \* the first letter.  Matters wherever the template derives identifiers from the method name (MFunc, MCalls, lockM, ...).
 MethodNames == {"AB", "lower", "initialism", "twins"}
-ClassTable == {[shape |-> s, names |-> ns, types |-> ts, mnames |-> mn, fragile |-> (ns \in Fragile)] :
+ClassTable == {[shape |-> s, names |-> ns, types |-> ts, mnames |-> mn, fragile |-> (ns \in Fragile),
+                refpos |-> {i \in RefPositions(ts) : i <= s.ar /\ ~(s.var /\ i = s.ar)}] :
                  s \in MCShapes, ns \in NameSets, ts \in TypeSets, mn \in MethodNames}
 Classes == {c \in ClassTable : Applicable(c.names, c.types, c.shape)}
 
